@@ -247,58 +247,42 @@ def run(ctx, prog):
             iv = init_var_of(prog, cls)
             ctx.require(iv is not None, 'init_var of %s not in IR' % cls)
             regs = cat.registrations(prog, cls)
-            if not regs and enumeration_idiom(prog, cls, ctor, 'register_var'):
-                ok = enumeration_idiom(prog, cls, iv, 'set_var')
-                chan = [c for c in calls(iv.body) if c.get('n') == 'isothermal_channel']
-                ctx.ob('C14.K4', '%s|enumeration-idiom|%s' % (short, sc), ok and len(chan) == 1, iv.where,
-                       'registration uses foreach_parameter but init_var does not set the same enumeration after assigning defaults',
-                       sample='%s: foreach_parameter(register) / isothermal_channel + foreach_parameter(set)' % short)
-                # defaults: isothermal_channel zeroes every parameter through the same enumeration first
-                ch = [f for f in prog.functions if f.n == 'isothermal_channel' and f.scalar == scalar]
-                zero_first = False
-                if ch:
-                    st0 = flat_stmts(ch[0].body)
-                    for s in st0:
-                        e = strip(s)
-                        if e.get('k') == 'decl':
-                            continue
-                        zero_first = e.get('k') == 'call' and e.get('n') == 'zero'
-                        break
-                ctx.ob('C14.K4', '%s|zero-first|%s' % (short, sc), zero_first, ch[0].where if ch else iv.where,
-                       'isothermal_channel does not start by zeroing every parameter', sample='zero(ms) then literal assignments')
-            else:
+            if True:
                 regnames = [r['name'] for r in regs]
-                regmap = {r['name']: '.'.join(r['path'][1:]) for r in regs if r['path'] and r['path'][0] == 'this'}
+                regmap = {r['name']: '.'.join(r['path'][1:]) for r in regs if r['name'] is not None and r['path'] and r['path'][0] == 'this'}
                 E = terms.Evaluator(prog, dyn_class=cls, scalar=scalar, regmap=regmap, opaque=('register_var', 'register_vec'))
                 outs = E.run(iv)
                 setnames = [c[0] for c in E.trace.setvar_calls if c[2] == 'set_var']
                 for r in regs:
                     if r['kind'] != 'var':
                         continue
-                    path = regmap.get(r['name'])
-                    bad = None
+                    path = '.'.join(r['path'][1:]) if r['path'] and r['path'][0] == 'this' else None
+                    rname = r['name'] if r['name'] is not None else path
+                    bad = None if path is not None else 'registered address is not a member of the instance'
                     vals = set()
-                    for o in outs:
+                    for o in (outs if path is not None else []):
                         v = o.mem.get(path)
                         if v is None:
-                            bad = 'parameter "%s" of %s is registered but init_var gives it no default on some path (stays at the marker, sanity_check fails)' % (r['name'], short)
+                            bad = 'parameter "%s" of %s is registered but init_var gives it no default on some path (stays at the marker, sanity_check fails)' % (rname, short)
                             break
                         vals.add(v)
                         if terms.has_unk(v):
-                            bad = 'default of %s is not a constant expression (%s)' % (r['name'], terms.has_unk(v)[0])
+                            bad = 'default of %s is not a constant expression (%s)' % (rname, terms.has_unk(v)[0])
                         elif [x for x in terms.syms(v) if x != 'pi' and not x.startswith(('const:', '@loop:', '@old:'))]:
-                            bad = 'default of %s depends on %s' % (r['name'], sorted(x for x in terms.syms(v) if x != 'pi' and not x.startswith(('const:', '@loop:', '@old:')))[:3])
+                            bad = 'default of %s depends on %s' % (rname, sorted(x for x in terms.syms(v) if x != 'pi' and not x.startswith(('const:', '@loop:', '@old:')))[:3])
                         else:
                             p1 = nf.nf(v)
                             if p1 == nf.const_poly(MARKER):
-                                bad = 'default of %s equals the uninitialised marker' % r['name']
-                    ctx.ob('C14.K4', '%s|registered-has-constant-default|%s|%s' % (short, r['name'], sc), bad is None, r['node'].get('l'), bad or '',
-                           sample='%s.%s = %s' % (short, r['name'], terms.fmt(next(iter(vals)))[:40] if vals else '?'))
+                                bad = 'default of %s equals the uninitialised marker' % rname
+                    ctx.ob('C14.K4', '%s|registered-has-constant-default|%s|%s' % (short, rname, sc), bad is None, r['node'].get('l'), bad or '',
+                           sample='%s.%s = %s' % (short, rname, terms.fmt(next(iter(vals)))[:40] if vals else '?'))
                 varnames = [r['name'] for r in regs if r['kind'] == 'var']
                 for nm in setnames:
+                    if nm is None:
+                        continue    # name built at run time (power-law enumeration): the value check above is by member
                     ctx.ob('C14.K4', '%s|default-is-registered|%s|%s' % (short, nm, sc), nm in varnames, iv.where,
                            'init_var sets "%s" which %s never registers (set_var fails, init_param != 0)' % (nm, short), nontrivial=False)
-                dup = set(n for n in regnames if regnames.count(n) > 1)
+                dup = set(n for n in regnames if n is not None and regnames.count(n) > 1)
                 ctx.ob('C14.K4', '%s|distinct-names|%s' % (short, sc), not dup, ctor.where, 'names registered twice: %s' % sorted(dup), sample='%d names' % len(regnames))
                 # vectors
                 for r in regs:
